@@ -33,7 +33,8 @@ class Field:
     @property
     def id(self):
         """field id as the library reports it"""
-        return "reserved_%s" % self.off if self.type == "RESERVED" else self.db_id
+        # the generator renders 'reserved_' + str(BitOffset); a field without BitOffset renders as 'reserved_'
+        return ("reserved_%s" % ("" if self.d.get("BitOffset") is None else self.d.get("BitOffset"))) if self.type == "RESERVED" else self.db_id
 
     @property
     def fixed(self):
